@@ -186,6 +186,8 @@ def binop(it, op, a, b):
             return SFloat(fa - fb)
         if isinstance(op, ast.Mult):
             return SFloat(fa * fb)
+        if isinstance(op, ast.Div) and z3.is_rational_value(z3.simplify(fb)) and z3.simplify(fb).numerator_as_long() != 0:
+            return SFloat(fa / fb)  # division by a non-zero constant (floats are modelled as reals throughout)
         raise Unsupported("float op")
     if isinstance(op, ast.Add):
         if isinstance(a, SStr) and isinstance(b, SStr):
